@@ -5,9 +5,10 @@ Model of `/repo/ak/cli_tools.py` (C19), first part: declarations and option tabl
 
 * `parseDecl`    — the command string `"!name:parent1, parent2"` (split at the first `:`, one leading
                    `!`, parents split at `,`, stripped, empty pieces dropped, collected in a set).
-* `declare`      — one iteration of the loop in `_init_multicmd_parser`: the three `assert`s, then the
+* `declareByParent` — one iteration of the loop in `_init_multicmd_parser`: the three `assert`s, then the
                    new parser is registered in each parent and in every parser that already lists that
                    parent as dependent (`register_dependent` is idempotent since 016eb00).
+* `declare`      — the same with the parents handled in one pass (proved equal, fast on long chains).
 * `build`        — the whole loop, `assert commands`, choice of the default command.
 * `addOption`    — `ArgParser.add_argument` (target `none`: every parser, no propagation) and
                    `get_cmd_parser(p).add_argument` (dependents of `p`, then `p`; one level only).
@@ -35,6 +36,8 @@ inductive PosN where
 /-- what `add_argument` creates -/
 inductive Kind where
   | flag                                             -- action='store_true'
+  | flagOff                                          -- action='store_false'
+  | const (v : Name)                                 -- action='store_const', const=v
   | value                                            -- one string value
   | count                                            -- action='count', default 0
   | optChoice (choices : List Name) (dflt : Name)    -- nargs='?', choices, const None
@@ -50,6 +53,7 @@ structure OptSpec where
   strings : List Name        -- option strings; for a positional: `[dest]`
   kind : Kind
   mutex : Bool               -- member of the (only) mutually exclusive group
+  dest : Option Name := none -- explicit `dest=`
   deriving DecidableEq, Repr
 
 /-- a command parser (`AkArgumentParser`) -/
@@ -121,19 +125,37 @@ def parseDecl (s : Name) : Decl :=
 
 def names (ps : List Parser) : List Name := ps.map (·.name)
 
-/-- `register_dependent(name, parser)`: a second registration of the same name is a no-op -/
+/-- `register_dependent(name, parser)`: a second registration of the same name is a no-op.
+(`deps` is kept newest first.) -/
 def Parser.register (q : Parser) (c : Name) : Parser :=
-  if c ∈ q.deps then q else { q with deps := q.deps ++ [c] }
+  if c ∈ q.deps then q else { q with deps := c :: q.deps }
 
 /-- registration of `c` for the parent `p`: in `p` and in every parser listing `p` as dependent -/
 def regParent (c : Name) (ps : List Parser) (p : Name) : List Parser :=
   ps.map fun q => if q.name = p ∨ p ∈ q.deps then q.register c else q
 
-def declare (std : List OptSpec) (ps : List Parser) (d : Decl) : Except Err (List Parser) :=
+/-- one iteration of the loop, shaped like the code: parent by parent, idempotent registration -/
+def declareByParent (std : List OptSpec) (ps : List Parser) (d : Decl) : Except Err (List Parser) :=
   if d.name = [] then .error .assertion
   else if d.name ∈ names ps then .error .assertion
   else if d.parents.any (fun p => !(names ps).contains p) then .error .assertion
   else .ok (d.parents.foldl (regParent d.name) ps ++
+            [{ name := d.name, internal := d.internal, deps := [], opts := std }])
+
+/-- does some parent of the new command concern `q` (is `q` a parent, or does it list one as dependent)? -/
+def touches (parents : List Name) (q : Parser) : Bool :=
+  parents.any (fun p => decide (q.name = p ∨ p ∈ q.deps))
+
+def Parser.push (q : Parser) (c : Name) : Parser := { q with deps := c :: q.deps }
+
+/-- the same iteration with all parents handled at once (what the driver executes: linear in the
+number of parsers for chains; equal to `declareByParent` whenever the new name is not yet a
+dependent of anybody — `C19.declare_follows_code`) -/
+def declare (std : List OptSpec) (ps : List Parser) (d : Decl) : Except Err (List Parser) :=
+  if d.name = [] then .error .assertion
+  else if d.name ∈ names ps then .error .assertion
+  else if d.parents.any (fun p => !(names ps).contains p) then .error .assertion
+  else .ok (ps.map (fun q => if touches d.parents q then q.push d.name else q) ++
             [{ name := d.name, internal := d.internal, deps := [], opts := std }])
 
 def declareAll (std : List OptSpec) : List Parser → List Decl → Except Err (List Parser)
